@@ -57,6 +57,15 @@ def cases(draw):
         else:
             op = ["exec", draw(st.sampled_from([256.0, 1024.0])), {}]
         a["ops"].insert(draw(st.integers(0, len(a["ops"]))), op)
+    # an asynchronous communication is waited for before its actor ends (most of the time): the actor's "send"/"receive" state is popped
+    # when the communication completes
+    for a in prog["actors"]:
+        hs = [o[4] if o[0] == "put_async" else o[2] for o in a["ops"] if o[0] in ("put_async", "get_async")]
+        waited = {o[1] for o in a["ops"] if o[0] == "wait"}
+        if draw(st.integers(0, 7)) > 0:
+            for h in hs:
+                if h not in waited:
+                    a["ops"].append(["wait", h, {}])
     for a in prog["actors"]:
         if "daemon" not in a and draw(st.integers(0, 7)) == 0:
             a["daemon"] = True
